@@ -1,8 +1,9 @@
 #!/bin/bash
 # runs every registered quick check on /repo and reports one line per property (evidence files are rewritten)
 cd "$(dirname "$0")/.."
+EXTRA="$*"   # e.g. --update-expected to re-pin the clause-named obligation sets from full runs
 for p in $(python3 -c "import json;print(' '.join(c['property_id'] for c in json.load(open('MANIFEST.json'))['checks']))"); do
-  out=$(bin/check $p 2>&1); rc=$?
+  out=$(bin/check $p $EXTRA 2>&1); rc=$?
   echo "$out" | grep -E "^$p \[" | tail -1
   [ $rc -ne 0 ] && echo "   !! exit $rc" && echo "$out" | grep -E "VIOLATION|ENGINE|UNDECIDED" | head -5
 done
